@@ -4,11 +4,16 @@
     harness reports the *.wal files present and the manifest raft pointers;
     after operations that can remove segments (and at the end) it copies the
     directory (crash image), opens it with NoKV.Open + OpenWALStorage and
-    reports Get of every key and the raft observables.
+    reports Get of every key and the raft observables.  A [WReopen g] step
+    closes nothing and opens group g's WALStorage again on the live manager
+    (what a restarting peer does); the manifest pointers reported after it are
+    compared field by field like after every other step.
 
     mismatch  = files / pointers / recovered contents differ from Model/WalGc.v;
     violation = a segment that disappeared was needed (Spec/WalGcSpec.v
-                [needed_b] in the state the operation ran in), or a crash image
+                [needed_b] in the state the operation ran in), or the manifest
+                raft pointer's TruncatedIndex is not the truncation point of the
+                history ([expect_raft]), or a crash image
                 does not give back the last acknowledged value of a key
                 ([expect_get]) or a group's persisted history
                 ([raft_recovered_ok_b]) -- both functions of the history alone.
@@ -34,6 +39,7 @@ Record probe := {
 }.
 Record wstep := {
   w_op : wop;
+  w_out : option bool;                 (* WReopen: did OpenWALStorage return a storage? *)
   w_segs : list N;                     (* *.wal ids present after the operation *)
   w_ptrs : list (N * (N * N * N));     (* gid -> (Segment, SegmentIndex, TruncatedIndex) *)
   w_probe : option probe
@@ -132,11 +138,26 @@ Definition eval_step (a : acc) (w : wstep) : acc :=
   let vio1 := map (classify_removal s s' o) bad in
   let lost := groups_in s gone in
   let wd := k_wd_lsm a || existsb (fun id => match o with WWatchdog => lsm_needed_b s s' id | _ => false end) gone in
-  let mis1 := negb (listN_eqb (seg_ids (s_segs s')) (w_segs w)) ||
+  let mis0 := match o, w_out w with
+              | WReopen g, Some ok => negb (Bool.eqb ok (snd (raft_reopen s g)))
+              | WReopen _, None => true
+              | _, _ => false
+              end in
+  let mis1 := mis0 || negb (listN_eqb (seg_ids (s_segs s')) (w_segs w)) ||
               negb (forallb (ptr_matches s') (w_ptrs w)) in
+  (* the truncation point recorded in the manifest is a function of the history
+     alone: it never moves back, whatever is reopened in between *)
+  let vio_ptr := flat_map (fun gp =>
+                   let '(g, (_, _, tr)) := gp in
+                   match expect_raft g ops' a_init 0 with
+                   | Some (_, t) =>
+                       if tr =? t then []
+                       else [if existsb (N.eqb g) (k_lost_group a ++ lost) then 4 else 0]
+                   | None => []
+                   end) (w_ptrs w) in
   let a1 := {| k_st := s'; k_ops := ops'; k_files := w_segs w;
                k_lost_group := k_lost_group a ++ lost; k_wd_lsm := wd;
-               k_mis := k_mis a || mis1; k_vio := k_vio a ++ vio1 |} in
+               k_mis := k_mis a || mis1; k_vio := k_vio a ++ vio1 ++ vio_ptr |} in
   match w_probe w with
   | None => a1
   | Some p =>
@@ -161,6 +182,8 @@ Definition Ob (h : hardstate) (si st fi la : N) (es : list (N * entry)) : obs :=
 Definition Pr (segs : list N) (kvs : list (N * option N)) (rs : list (N * res obs)) : probe :=
   {| pr_segs := segs; pr_kvs := kvs; pr_raft := rs |}.
 Definition Ws (o : wop) (segs : list N) (ptrs : list (N * (N * N * N))) (p : option probe) : wstep :=
-  {| w_op := o; w_segs := segs; w_ptrs := ptrs; w_probe := p |}.
+  {| w_op := o; w_out := None; w_segs := segs; w_ptrs := ptrs; w_probe := p |}.
+Definition Wo (o : wop) (ok : bool) (segs : list N) (ptrs : list (N * (N * N * N))) (p : option probe) : wstep :=
+  {| w_op := o; w_out := Some ok; w_segs := segs; w_ptrs := ptrs; w_probe := p |}.
 Definition Cs (ids : list N) (active : N) (l : list wstep) : case :=
   {| c_ids := ids; c_active := active; c_steps := l |}.
